@@ -161,6 +161,7 @@ def _values(case, count):
 
 
 _SHARED = {}
+NUMPY_OUTSIDE = [0]
 
 
 def _downscaler(case):
@@ -175,14 +176,30 @@ def _downscaler(case):
     return _fresh_downscaler(case)
 
 
+def worker_obs():
+    return {"outside_values_given_as_numpy_scalars": NUMPY_OUTSIDE[0]}
+
+
 def _fresh_downscaler(case):
     from neuroglancer_scripts import downscaling
     m = case["method"]
     if m == "average":
         return downscaling.get_downscaler("average", options={})
     if m == "average_outside":
-        return downscaling.get_downscaler("average",
-                                          options={"outside_value": case["outside"]})
+        ov = case["outside"]
+        if case["vseed"] % 4 == 1:
+            # the configured value arrives as a NumPy scalar (volume.max(), an element of an
+            # array), of the narrowest type that holds it
+            import numpy as np
+            for ndt in (np.uint8, np.int16, np.uint16, np.int32, np.float32):
+                try:
+                    if float(ndt(ov)) == float(ov):
+                        ov = ndt(ov)
+                        NUMPY_OUTSIDE[0] += 1
+                        break
+                except (OverflowError, ValueError):
+                    continue
+        return downscaling.get_downscaler("average", options={"outside_value": ov})
     return downscaling.get_downscaler(m)
 
 
@@ -421,6 +438,8 @@ def gates(obs, tier):
         "unsupported_probes_run": obs.get("unsupported_probes", 0) >= 10,
         "arrays_beyond_64_per_axis": obs.get("large_arrays", 0) > 0,
         "arrays_beyond_2_20_voxels": obs.get("huge_arrays", 0) > 0,
+        "outside_values_given_as_numpy_scalars": obs.get(
+            "outside_values_given_as_numpy_scalars", 0) > 20,
         "blocks_containing_nan": obs.get("blocks_with_nan", 0) > 100,
         "majority_blocks_of_256_voxels_or_more": obs.get(
             "majority_blocks_of_256_voxels_or_more", 0) >= 8,
